@@ -19,8 +19,11 @@ import time
 
 from vlib import core
 from checks import c04_model as m
+from checks import c04_rate
+from translate import ratedecomp
 
 MODULE = "UtapModel.Props.C04"
+RMODULE = "UtapModel.Props.C04Rate"
 HDR = ("WF", "SPEC-EQ", "ERRS", "FRAGS")
 
 RATE_FIRST_XML = """<nta><declaration>clock x;</declaration>
@@ -142,7 +145,15 @@ def run(ctx):
     cov = ctx.coverage
     t0 = time.time()
     m.regen_tables(ctx)      # on failure (reported as a broken tie) go on with the tables of the last good run: the oracle below finds the input
-    ok, log = ctx.prove(MODULE, ["drv_c04"])
+    rate_tie = None
+    try:
+        rtext, rcfg = ratedecomp.translate(core.REPO)
+        core.write_if_changed(os.path.join(core.VERIF, "lean", "UtapModel", "Gen", "RateDecompCfg.lean"), rtext)
+        cov["invariant_decomposition_translated"] = rcfg
+    except ratedecomp.TranslateError as ex:
+        rate_tie = str(ex)      # the Gen file of the last good run stays; the stage below compares the library with it
+        ctx.log("translate/ratedecomp.py failed:", rate_tie)
+    ok, log = ctx.prove([MODULE, RMODULE], ["drv_c04"])
     broken = []
     if not ok:
         broken = core.failing_theorems(log)
@@ -214,6 +225,25 @@ def run(ctx):
             ctx.proof_broken("correspondence:" + key, json.dumps({k: v for k, v in res.items() if k in ("trace", "lean")}),
                              "the built document still equals the specification on all %d models" % len(cases))
         reported += 1
+    # -- the invariant as the type checker stores it (Props/C04Rate.lean) ------------------------------------------------------------
+    rst, rout = c04_rate.run(ctx, R.exe, core.lean_exe("drv_c04"))
+    cov["invariant_decomposition"] = rst
+    rate_found = False
+    seen_keys = set()
+    for kind, key, what, rep in rout:
+        if kind == "finding" and key not in seen_keys:
+            seen_keys.add(key)
+            ctx.finding(key, what, rep)
+            rate_found = True
+    mach = [x for x in rout if x[0] == "machinery"]
+    if mach:
+        ctx.proof_broken("correspondence:invariant-decomposition/generator", mach[0][2], "a generated invariant was rejected by the library")
+    mdl = [x for x in rout if x[0] == "model"]
+    if mdl and not rate_found:
+        # the library and the model of the decomposer differ while the property holds on every generated invariant
+        ctx.proof_broken("correspondence:invariant-decomposition", mdl[0][2], "the stored invariants still mirror the source on all %d generated invariants" % rst["compared"])
+    if rate_tie and not rate_found and not mdl:
+        ctx.proof_broken("translate/ratedecomp.py", rate_tie, "the stored invariants still mirror the source on all %d generated invariants" % rst["compared"])
     # -- decoys: elements the abstract model does not describe must leave everything it does describe untouched -----------------
     # a dynamic template WITH parameters (declared by `dynamic D(..);`, defined before the first ordinary template): its parameters
     # belong to it alone
